@@ -13,8 +13,10 @@
 (*   qualified   Sel of a selector whose X denotes an imported package       *)
 (*   dotuse      a use of a package-level object of another package with no  *)
 (*               qualifier (dot-import)                                      *)
-(*   anything else (local, universe, field, method, label, declaring,        *)
-(*   package name itself) gets no path.                                      *)
+(*   local       a use of a package-level object of the file's own package   *)
+(*               (a path only with ResolveLocalPath)                          *)
+(*   anything else (function-local, universe, field, method, label,          *)
+(*   declaring, package name itself) gets no path.                           *)
 (***************************************************************************)
 EXTENDS Integers, Sequences, FiniteSets, TLC
 
@@ -56,6 +58,9 @@ TableSound == done => LET r == GoastTable(specs) IN ~r.err =>
    \A n \in DOMAIN r.t : \E i \in DOMAIN specs : specs[i].path = r.t[n] /\ (IF specs[i].alias = "" THEN specs[i].name ELSE specs[i].alias) = n
 
 \* (b) the classification
-ExpectedPath(role, objPath, localPath) ==
-  IF role \in {"qualified", "dotuse"} /\ objPath # localPath THEN objPath ELSE ""
+\* resolveLocal is Decorator.ResolveLocalPath: package-level objects of the local package keep their path
+ExpectedPath(role, objPath, localPath, resolveLocal) ==
+  IF role \in {"qualified", "dotuse"} /\ objPath # localPath THEN objPath
+  ELSE IF role = "local" /\ resolveLocal THEN localPath
+  ELSE ""
 =============================================================================
